@@ -44,6 +44,8 @@ type Drv struct {
 	Canceller       bool
 	PreCancel       bool
 	FSFailAt        int
+	FSErrno         string          // what the failing file-system call reports ("" = EIO)
+	FSPersist       bool            // every file-system call from FSFailAt on fails
 	Pre             map[string]byte // entries pre-existing in the target directory
 	Strict          bool
 	Simple          bool // run without the massive option (reference)
@@ -90,6 +92,9 @@ func (d *Drv) String() string {
 	}
 	if d.FSFailAt > 0 {
 		s += fmt.Sprintf(" fsFailAt=%d", d.FSFailAt)
+		if d.FSErrno != "" || d.FSPersist {
+			s += fmt.Sprintf("(%s persist=%v)", d.FSErrno, d.FSPersist)
+		}
 	}
 	if len(d.Pre) > 0 {
 		s += fmt.Sprintf(" pre=%v", d.Pre)
@@ -205,7 +210,7 @@ func (r *DrvRun) Body() {
 		rd.blockAt = d.ReaderBlockAt
 		rd.release = mc.NewChan[struct{}](0)
 	}
-	mos.Reset(d.FSFailAt)
+	mos.ResetKind(d.FSFailAt, d.FSErrno, d.FSPersist)
 
 	var opts []gtree.Option
 	if !d.Simple {
